@@ -306,9 +306,15 @@ def readline_contract(t):
                 key = f"C03:readline:{lines!r}@{start}"
                 t.case(key, any(not ln.strip() or ln.strip().startswith("#") for ln in lines[start:]))
                 t.contract("_line_string_reader.readline: k-th call == k-th stored line, then ''")
-                r = _line_string_reader(lines, start)
-                got = [r.readline() for _ in range(size - start + 2)]
                 want = lines[start:] + ["", ""]
+                try:
+                    r = _line_string_reader(lines, start)
+                    got = [r.readline() for _ in range(size - start + 2)]
+                except Exception as ex:
+                    t.violation("readline:raises nothing (no index error past the end)",
+                                f"raises {type(ex).__name__}", key, want, repr(ex)[:120],
+                                {"kind": "C03", "key": key})
+                    continue
                 if got != want:
                     t.violation("readline:ensures result == nth(lines, current) and current advances by one",
                                 "the reader's rows are not the physical lines", key, want, got,
